@@ -327,8 +327,11 @@ class CurveFitting(object):
         sy = self._T
         sx2 = self._Q
         sy2 = self._W
-        return ((n * sxy - sx * sy) / (sqrt(n * sx2 - sx * sx)
-                                       * sqrt(n * sy2 - sy * sy)))
+        dx = n * sx2 - sx * sx
+        dy = n * sy2 - sy * sy
+        if abs(dx) < TOL or abs(dy) < TOL:
+            raise ZeroDivisionError("Input data leads to a division by zero")
+        return (n * sxy - sx * sy) / (sqrt(dx) * sqrt(dy))
 
     def linear_fitting(self):
         """This method returns a tuple with the 'a', 'b' coefficients of the
